@@ -106,6 +106,9 @@ func runMem(c Case, tr *Tracer) {
 		case 0, 1: // encode, then the caller scribbles over the returned bytes
 			tn := typeNames[rr.Intn(len(typeNames))]
 			a := defaultAssign(rr, tn, true)
+			if rr.Intn(3) == 0 {
+				tn, a = largeAssign(rr)
+			}
 			ref, err0 := build(tn, a).IEncode()
 			out, err := build(tn, a).IEncode()
 			if err != nil || err0 != nil {
@@ -246,4 +249,31 @@ func randText(r *rand.Rand, n int) string {
 		rs[i] = pool[r.Intn(len(pool))]
 	}
 	return string(rs)
+}
+
+// largeAssign: a PDU of several KiB (many destinations, long bodies, big optional values)
+func largeAssign(rr *rand.Rand) (string, assign) {
+	big := []string{"cmpp20.PduSubmit", "cmpp30.Submit", "sgip12.Submit", "smgp30.Submit", "sgip12.Deliver", "smpp34.SubmitSm", "smpp34.DeliverSm"}
+	tn := big[rr.Intn(len(big))]
+	a := defaultAssign(rr, tn, true)
+	for _, f := range layouts[tn].Fields {
+		switch f.K {
+		case "L":
+			var l [][]byte
+			for i := 60 + rr.Intn(196); i > 0; i-- {
+				l = append(l, nulFree(rr, f.W))
+			}
+			a[f.N] = fval{list: l}
+		case "B":
+			for i, g := range layouts[tn].Fields {
+				if g.N == f.N && layouts[tn].Fields[i-1].W == 4 {
+					a[f.N] = fval{b: randBytes(rr, 2000+rr.Intn(6000))}
+				}
+			}
+		case "T", "O":
+			a[f.N] = fval{tlvs: []tlvVal{{0x1401, randBytes(rr, 3000+rr.Intn(3000))}, {5, randBytes(rr, 10)}}}
+		}
+	}
+	fixCounts(tn, a)
+	return tn, a
 }
